@@ -21,6 +21,10 @@ SPEC_DIR = os.path.join(VERIF, 'spec')
 WORK_ROOT = os.path.join(VERIF, '.work')
 EVIDENCE_DIR = os.path.join(VERIF, 'evidence')
 REPLAY_DIR = os.path.join(VERIF, 'replays')
+if os.environ.get('VERIF_REPO'):
+    # self-tests against a scratch worktree (seeded changes) must not overwrite the evidence of the real tree
+    EVIDENCE_DIR = os.path.join(VERIF, '.work', 'selftest-evidence')
+    REPLAY_DIR = os.path.join(VERIF, '.work', 'selftest-replays')
 KNOWN_FINDINGS = os.path.join(VERIF, 'known_findings.json')
 TLA_JAR = '/opt/veriftools/tla/tla2tools.jar:/opt/veriftools/tla/CommunityModules-deps.jar'
 NCPU = os.cpu_count() or 4
